@@ -64,6 +64,8 @@ Inductive case :=
 | CSVC (typed : obj) (inp : obj) (out : obj)
 (* KeyFingerprint(code,key): bytes under the base58 layer; PubKeyFromFingerprint result; PubKeyFromDIDKey result *)
 | CFP (code : N) (key : list N) (mc : list N) (dec : option (list N * N)) (dk : option (list N))
+(* jwk.JWK.UnmarshalJSON -> MarshalJSON of one JWK *)
+| CJWK (inp : obj) (out : obj)
 (* one service of a DID document (id, @base of the document): populateServices -> populateRawServices *)
 | CSVC2 (did base : string) (inp : obj) (out : obj)
 (* did.ParseDocument -> JSONBytes (services are checked by CSVC2) *)
@@ -89,6 +91,7 @@ Definition check_case (c : case) : bool :=
       | None => false
       end
   | CSVC typed inp out => jeq (JObj (service_roundtrip (f64o typed) inp)) (f64j (JObj out))
+  | CJWK inp out => jeq (JObj (jwk_out inp)) (f64j (JObj out))
   | CSVC2 did base inp out => jeq (JObj (roundtrip_service did base inp)) (f64j (JObj out))
   | CDID inp out =>
       match out with
